@@ -290,6 +290,8 @@ enum Timer {
     ZeroWindowProbe {
         expires_at: Instant,
         delay: Duration,
+        /// Sequence space the last probe occupied (its octet, and the FIN that went with it).
+        probe_len: usize,
     },
     Close {
         expires_at: Instant,
@@ -400,16 +402,25 @@ impl Timer {
         *self = Timer::ZeroWindowProbe {
             expires_at: timestamp + delay,
             delay,
+            probe_len: 0,
         }
     }
 
-    fn rewind_zero_window_probe(&mut self, timestamp: Instant) {
+    fn rewind_zero_window_probe(&mut self, timestamp: Instant, probe_len: usize) {
         if let Timer::ZeroWindowProbe { mut delay, .. } = *self {
             delay = (delay * 2).min(Duration::from_millis(RTTE_MAX_RTO as _));
             *self = Timer::ZeroWindowProbe {
                 expires_at: timestamp + delay,
                 delay,
+                probe_len,
             }
+        }
+    }
+
+    fn zero_window_probe_len(&self) -> usize {
+        match *self {
+            Timer::ZeroWindowProbe { probe_len, .. } => probe_len,
+            _ => 0,
         }
     }
 
@@ -1686,13 +1697,12 @@ impl<'a> Socket<'a> {
                 let mut ack_min = self.local_seq_no;
                 // ... and not beyond what has actually been transmitted (SND.MAX): octets (or a
                 // FIN) still waiting in the queue cannot have been received by anyone.
-                let mut sent_max = self.remote_last_seq.max(self.remote_max_seq);
-                if self.timer.is_zero_window_probe()
-                    && sent_max - self.local_seq_no < self.tx_buffer.len()
-                {
-                    // (the data octet a zero-window probe carries is not recorded as sent)
-                    sent_max += 1;
-                }
+                // (What a zero-window probe carries -- an octet, and the FIN when it is the last
+                // one queued -- is not recorded there.)
+                let sent_max = self
+                    .remote_last_seq
+                    .max(self.remote_max_seq)
+                    .max(self.remote_last_seq + self.timer.zero_window_probe_len());
                 let ack_max = (self.local_seq_no + unacknowledged).min(sent_max);
 
                 // If we have sent a SYN, it MUST be acknowledged.
@@ -2868,7 +2878,8 @@ impl<'a> Socket<'a> {
 
         // Leave the rest of the state intact if sending a zero-window probe.
         if is_zero_window_probe {
-            self.timer.rewind_zero_window_probe(cx.now());
+            self.timer
+                .rewind_zero_window_probe(cx.now(), repr.segment_len());
             return Ok(());
         }
 
@@ -8363,6 +8374,48 @@ mod test {
             payload: &data[..1],
             ..RECV_TEMPL
         }));
+    }
+
+    #[test]
+    fn test_zero_window_probe_with_fin_acked() {
+        let mut s = socket_established();
+        s.send_slice(b"a").unwrap();
+        send!(
+            s,
+            TcpRepr {
+                seq_number: REMOTE_SEQ + 1,
+                ack_number: Some(LOCAL_SEQ + 1),
+                window_len: 0,
+                ..SEND_TEMPL
+            }
+        );
+        s.close();
+        assert_eq!(s.state, State::FinWait1);
+        recv_nothing!(s, time 999);
+        // the probe carries the only octet queued, and the FIN with it
+        recv!(
+            s,
+            time 1000,
+            [TcpRepr {
+                control: TcpControl::Fin,
+                seq_number: LOCAL_SEQ + 1,
+                ack_number: Some(REMOTE_SEQ + 1),
+                payload: &b"a"[..],
+                ..RECV_TEMPL
+            }]
+        );
+        // the remote end took both
+        send!(
+            s,
+            time 1100,
+            TcpRepr {
+                seq_number: REMOTE_SEQ + 1,
+                ack_number: Some(LOCAL_SEQ + 1 + 1 + 1),
+                window_len: 0,
+                ..SEND_TEMPL
+            }
+        );
+        assert_eq!(s.state, State::FinWait2);
     }
 
     #[test]
